@@ -23,6 +23,11 @@ def extra_runs(ctx, n):
         bs = rng.choice([None, 1, 2, 3, k, k + 1])
         th = rng.choice([0, 0, 0.5, 0.9])
         runs.append(pipeline.traced_run(rows, n_jobs=4, batch_size=bs, threshold=th))
+    # batches that contribute only some of the counters: a first batch of rejected rows only, of balanced rows only, of
+    # rule-based rows only — the counters that first appear in a later batch must still be reported
+    tail = ["CCOCC>>CCO", "CCO>>CC=O", "C>>C", "CC(=O)OCC>>CC(=O)O"]
+    for head, bs in ((["xx>>C"], 1), (["xx>>C", "CC"], 2), (["C>>C", "CC>>CC"], 2), (["CCO>>CC=O"], 1), ([""], 1)):
+        runs.append(pipeline.traced_run(head + tail, n_jobs=2, batch_size=bs, threshold=0))
     return runs
 
 
